@@ -19,22 +19,22 @@ type hookCtx struct {
 }
 
 type Ctx struct {
-	fe      *FE
-	st      *State
-	binds   map[string]Val
-	params  map[string]Val // parameter / free-variable name -> value
-	result  []Val
-	old     map[string]string // heap snapshot used by old(); nil = entry heap
-	oldGh   map[string]Val
-	own     bool // evaluating the verified function's own contract: ghosts, locals visible
-	hook    *hookCtx
-	pkg     *types.Package
-	head    *ssa.BasicBlock // loop head for `rangeindex` & phi names
-	qdepth  int
-	side    []string
-	inOld   bool
-	ghostNS map[string]Val // extra namespace (callee task ghosts)
-	what    string
+	fe        *FE
+	st        *State
+	binds     map[string]Val
+	params    map[string]Val // parameter / free-variable name -> value
+	result    []Val
+	old       map[string]string // heap snapshot used by old(); nil = entry heap
+	oldGh     map[string]Val
+	own       bool // evaluating the verified function's own contract: ghosts, locals visible
+	hook      *hookCtx
+	pkg       *types.Package
+	head      *ssa.BasicBlock // loop head for `rangeindex` & phi names
+	qdepth    int
+	side      []string
+	inOld     bool
+	ghostNS   map[string]Val // extra namespace (callee task ghosts)
+	what      string
 	freshBase string // allocation counter at the start of the call whose contract is being evaluated
 }
 
